@@ -97,26 +97,107 @@ def beamline_graph(repo: Repo, scatter: bool) -> dict:
     return o.value
 
 
-def history_free(repo: Repo, fis, rule, eff=None):
-    """Rule helper: the given functions write to no module-level state, directly or
-    through callees (a memo table filled by the first caller makes later results
-    depend on call history), and hand out no memoised object."""
+# concrete units per physical dimension for the two-call histories (two choices each: a memo table keyed by less than it
+# depends on hands the second call the first call's conversion factor)
+_HISTORY_UNITS = (
+    {'T': 'us', 'L': 'm', 'ENERGY': 'meV', 'ANGLE': 'rad', 'INVL': '1/angstrom', 'ONE': 'dimensionless', 'ACCEL': 'm/s^2', 'FREQ': 'Hz'},
+    {'T': 'ms', 'L': 'mm', 'ENERGY': 'J', 'ANGLE': 'deg', 'INVL': '1/nm', 'ONE': 'dimensionless', 'ACCEL': 'mm/ms^2', 'FREQ': 'kHz'},
+)
+
+
+def _summary(v):
+    """what a caller can see of a result, as text"""
+    if isinstance(v, SVar):
+        return ('var', T.show(v.term) if v.term is not None else f'⊤ {v.why}', repr(v.unit), v.dtype)
+    if isinstance(v, dict):
+        return ('dict', tuple((k, _summary(x)) for k, x in v.items()))
+    if isinstance(v, list | tuple):
+        return (type(v).__name__, tuple(_summary(x) for x in v))
+    return ('value', repr(v))
+
+
+def kernel_histories(repo: Repo, fis, binned: bool = False):
+    """Two-call histories of the kernels, interpreted in one world each (sa.kernel.run_history): every kernel after every kernel
+    (first units), and every kernel after itself with other units, another precision, and the same units again.  A history is a
+    problem when what the second call returns or raises differs from what it does in a fresh interpreter.
+    -> (problems per second function fq, number of histories)"""
+    from sa.kernel import EARLIER_CALL_RAISED, run_history
+    from sa.units import Unit
+
+    def config(fi, which, f32=False):
+        specs = {}
+        for name, spec in specs_for(fi).items():
+            unit = Unit.named(_HISTORY_UNITS[which][spec.dim]) if spec.dim in _HISTORY_UNITS[which] else None
+            specs[name] = P(kind=spec.kind, dim=spec.dim, dtype=spec.dtype, positive=spec.positive, taint=spec.taint, unit=unit, data=spec.data)
+        dtypes = {n: 'float32' for n, sp in specs.items() if sp.kind == 'scalar' and sp.data} if f32 else {}
+        return specs, dtypes
+
+    def observe(outs):
+        seen = set()
+        for o in outs:
+            if o.kind == 'return' and o.value is EARLIER_CALL_RAISED:
+                continue
+            seen.add((o.kind, o.exc_type, _summary(o.value) if o.kind == 'return' else None))
+        return seen
+
+    fresh_cache: dict = {}
+
+    def fresh(fi, cfg_key, cfg):
+        if (fi.fq, cfg_key) not in fresh_cache:
+            fresh_cache[(fi.fq, cfg_key)] = observe(run_history(repo, [(fi, cfg[0], cfg[1], "'")], binned, keep_table=True))
+        return fresh_cache[(fi.fq, cfg_key)]
+
+    problems: dict = {}
+    n = 0
+    fis = list(fis)
+    T.reset()  # one symbol table for all runs: the texts of equal terms are equal
+    SVar._next = 0
+    histories = []
+    for fb in fis:
+        for fa in fis:
+            histories.append((fa, (0, False), fb, (0, False)))
+        for ca, cb in (((0, False), (1, False)), ((1, False), (0, False)), ((0, False), (0, True)), ((0, True), (0, False))):
+            histories.append((fb, ca, fb, cb))
+    for fa, ca, fb, cb in histories:
+        first, second = config(fa, *ca), config(fb, *cb)
+        want = fresh(fb, cb, second)
+        got = observe(run_history(repo, [(fa, first[0], first[1], ''), (fb, second[0], second[1], "'")], binned, keep_table=True))
+        n += 1
+        if got != want:
+            problems.setdefault(fb.fq, []).append({
+                'history': [f'{fa.qualname}(units {ca[0] + 1}{", float32 data" if ca[1] else ""})',
+                            f'{fb.qualname}(units {cb[0] + 1}{", float32 data" if cb[1] else ""})'],
+                'second_call_in_a_fresh_interpreter': sorted(map(repr, want))[:2], 'second_call_after_the_first': sorted(map(repr, got))[:2]})
+    return problems, n
+
+
+def history_free(repo: Repo, fis, rule, eff=None, histories=None):
+    """Rule helper: results do not depend on call history.
+    (a) Effects: which functions write module-level state, directly or through callees, or hand out a memoised object.
+    (b) With `histories` (problems per fq, count - see kernel_histories): a memo table is no violation by itself; whether it is
+        keyed by everything its entries depend on is decided by interpreting two-call histories in one world.  Without them a
+        write to module-level state is reported as such."""
     from sa.effects import Effects
     if eff is None:
         eff = Effects(repo)
         eff.solve()
+    problems, n_hist = histories if histories is not None else ({}, 0)
     for fi in fis:
         s = eff.summaries[fi.fq]
         g = {t: m for t, m in s.mutates.items() if t.startswith('g:')}
         cached = sorted(t for t in s.ret.cont if t.startswith('g:'))
-        if g:
+        if problems.get(fi.fq):
+            first = problems[fi.fq][0]
+            rule.fail(fi.qualname, loc(fi), {'result_depends_on_call_history': first, 'histories_with_a_different_result': len(problems[fi.fq]),
+                                             'module_state_written': sorted(g)}, key=f'{fi.fq}:history')
+        elif g and histories is None:
             tok, m = sorted(g.items())[0]
             rule.fail(fi.qualname, m.where, {'writes_module_state': sorted(g), 'statement': m.stmt, 'via': m.via},
                       key=f'{fi.fq}:module-state')
         elif cached:
             rule.fail(fi.qualname, loc(fi), {'returns_shared_object': cached}, key=f'{fi.fq}:shared-result')
         else:
-            rule.ok(fi.qualname)
+            rule.ok(fi.qualname, {'module_state_written': sorted(g), 'two_call_histories': n_hist} if histories is not None else None)
     return eff
 
 
